@@ -1,6 +1,7 @@
 // viewprog.hpp — E-VIEW: continuation-passing interpreter of view programs over a real view and its table model.
 // A visitor observes (view, model) after every step; the interpreter itself decides domains on the model only.
 #pragma once
+#include <limits>
 #include "model.hpp"
 #include <boost/multi/array.hpp>
 #include <utility>
@@ -56,7 +57,10 @@ template<class Vis, bool RB = false> struct Interp {
 	template<class V> void step(V&& v, MV const& m, std::size_t pc) {
 		constexpr int D = rank_of<V>;
 		Op const& o = prog.ops[pc]; L const s0 = m.size[0]; bool const empty = m.has_zero();
+		L want_first = std::numeric_limits<L>::min();  // RB mode: the leading first index the zero-based twin's result has, shifted (set for taked(n) only: it keeps the leading indices [f, f+n) for every rank and value category on the pinned tree; sliced/dropped of 1-D expiring views re-base their result to 0 there, so the result's index base of those is observed, not judged)
 		auto next = [&](auto&& nv, MV const& nm, std::string const& text) {
+			if constexpr(RB) { if(want_first != std::numeric_limits<L>::min() && !nm.has_zero()) { L const got = L(nv.extension().first()); count("result-first-index-checks");
+				if(got != want_first) violation(std::string("C19:") + op_name(o.kind) + ":result-first-index", text + " of a view whose leading indices start at " + std::to_string(L(v.extension().first())) + " yields a view whose leading indices start at " + std::to_string(got) + "; the zero-based twin shifted by the base starts at " + std::to_string(want_first)); } }
 			describe(" " + text); sig_mix(std::uint64_t(o.kind) * 4 + std::uint64_t(o.cat)); count(std::string("op:") + op_name(o.kind));
 			run(std::forward<decltype(nv)>(nv), nm, pc + 1, op_name(o.kind));
 		};
@@ -79,6 +83,7 @@ template<class Vis, bool RB = false> struct Interp {
 		case K_DROPPED: { L n = o.a % (s0 + 1); if(n == s0 && o.c % 4 != 0 && s0 > 0) n = o.a % s0; if(empty) break; MV nm = m_dropped(m, n);
 			if(with_cat_nc(v, o.cat, [&](auto&& vv) { next(std::forward<decltype(vv)>(vv).dropped(n), nm, cs("dropped(") + S(n) + ")"); })) return; break; }
 		case K_TAKED: { L n = o.a % (s0 + 1); if(n == 0 && o.c % 4 != 0 && s0 > 0) n = 1 + o.a % s0; if(empty) break; MV nm = m_taked(m, n);
+			if(n > 0) want_first = f0;
 			if constexpr(D == 1) { with_cat(v, o.cat, [&](auto&& vv) { next(std::forward<decltype(vv)>(vv).taked(n), nm, cs("taked(") + S(n) + ")"); }); return; }
 			else if constexpr(is_mutable_view<V> && !std::is_const_v<std::remove_reference_t<V>>) { if(with_cat_nc(v, o.cat, [&](auto&& vv) { next(std::forward<decltype(vv)>(vv).taked(n), nm, cs("taked(") + S(n) + ")"); })) return; }
 			break; }
